@@ -2994,3 +2994,20 @@ from queries_c15text import QUERIES_C15TEXT  # noqa: E402
 QUERIES["C15"] = QUERIES.get("C15", []) + QUERIES_C15TEXT
 from queries_c18b import QUERIES_C18B  # noqa: E402
 QUERIES["C18"] = QUERIES.get("C18", []) + QUERIES_C18B
+
+# the frame decoder is what turns "whatever a remote peer sends" into messages or errors (C10: never wait forever)
+QUERIES["C10"] = QUERIES.get("C10", []) + [q for q in QUERIES_C09 if q.__name__ == "q_c09_frame_decode"]
+from queries_c10counts import QUERIES_C10COUNTS  # noqa: E402
+QUERIES["C10"] = QUERIES.get("C10", []) + QUERIES_C10COUNTS
+
+
+# ------------------------------------------------------------------------------------------------
+# cross-registrations (round 5): mechanisms a property names as its own are decided by the query that executes them, whichever
+# property it was written for.  C01: per-entry validation during reconciliation, prefix pruning on insert, the step counters;
+# C16: the open guard depends on the actor telling the store "closed" only with the last handle; peers of a removed document
+# cannot come back through a late registration.
+# ------------------------------------------------------------------------------------------------
+from queries_c02 import QUERIES_C02 as _QC02  # noqa: E402
+from queries_c14 import QUERIES_C14 as _QC14  # noqa: E402
+QUERIES["C01"] = QUERIES.get("C01", []) + [q_c03_reconcile_validation] + [q for q in _QC02 if q.__name__ == "q_c02_remove_prefix"] + QUERIES_C10COUNTS
+QUERIES["C16"] = QUERIES.get("C16", []) + [q for q in _QC14 if q.__name__ == "q_c14_gating"] + [q_c17_register_step]
